@@ -94,6 +94,26 @@ def main(config, kconfig, sdkconfig_rename, env, env_file, version):
     run_server(kconfig, config, sdkconfig_rename, default_version=version)
 
 
+def _write_json(obj) -> None:
+    """
+    Writes obj to stdout as one JSON text. The text is built first, so that a value that cannot be encoded does not
+    leave half a line behind. An integer longer than the interpreter's limit for integer -> decimal string conversion
+    (a hex option set to a few thousand digits) is still a valid JSON number: the limit is lifted for the encoding.
+    """
+    try:
+        text = json.dumps(obj)
+    except ValueError:
+        if not hasattr(sys, "set_int_max_str_digits"):
+            raise
+        limit = sys.get_int_max_str_digits()
+        sys.set_int_max_str_digits(0)
+        try:
+            text = json.dumps(obj)
+        finally:
+            sys.set_int_max_str_digits(limit)
+    sys.stdout.write(text)
+
+
 def run_server(kconfig, sdkconfig, sdkconfig_rename, default_version=MAX_PROTOCOL_VERSION):
     config = kconfiglib.Kconfig(kconfig)
     sdkconfig_renames = [sdkconfig_rename] if sdkconfig_rename else []
@@ -116,7 +136,7 @@ def run_server(kconfig, sdkconfig, sdkconfig_rename, default_version=MAX_PROTOCO
     if default_version == 1:
         # V1: no 'visibility' key, send value None for any invisible item
         values_dict = dict((k, v if visible_dict[k] else False) for (k, v) in config_dict.items())
-        json.dump({"version": 1, "values": values_dict, "ranges": ranges_dict}, sys.stdout)
+        _write_json({"version": 1, "values": values_dict, "ranges": ranges_dict})
     else:
         # V2 onwards: separate visibility from version
         resp = {
@@ -131,10 +151,7 @@ def run_server(kconfig, sdkconfig, sdkconfig_rename, default_version=MAX_PROTOCO
             resp["defaults"] = defaults_dict
             resp["warnings"] = warnings
 
-        json.dump(
-            resp,
-            sys.stdout,
-        )
+        _write_json(resp)
     sys.stdout.write("\n")
     sys.stdout.flush()
 
@@ -149,7 +166,7 @@ def run_server(kconfig, sdkconfig, sdkconfig_rename, default_version=MAX_PROTOCO
                 "version": default_version,
                 "error": [f"JSON formatting error: {e}"],
             }
-            json.dump(response, sys.stdout)
+            _write_json(response)
             sys.stdout.write("\n")
             sys.stdout.flush()
             continue
@@ -158,7 +175,7 @@ def run_server(kconfig, sdkconfig, sdkconfig_rename, default_version=MAX_PROTOCO
                 "version": default_version,
                 "error": ["Request must be a JSON object"],
             }
-            json.dump(response, sys.stdout)
+            _write_json(response)
             sys.stdout.write("\n")
             sys.stdout.flush()
             continue
@@ -243,7 +260,7 @@ def run_server(kconfig, sdkconfig, sdkconfig_rename, default_version=MAX_PROTOCO
             for err in error:
                 log.err(escape(str(err)))
             response["error"] = error
-        json.dump(response, sys.stdout)
+        _write_json(response)
         sys.stdout.write("\n")
         sys.stdout.flush()
 
